@@ -512,15 +512,6 @@ example := noise_transparent cfgF clean noisy (by decide) (by decide) rfl
 example : SameOnInstr 2 (analyze cfg noisy) (analyze cfg (noisy.filter (·.isInstr))) := noise_drop cfg noisy (by decide)
 example : 0 < (analyze cfg (noisy.filter (·.isInstr))).cpTotal := by decide +kernel
 
-/-- **cp_zero_quirk**: the positivity hypothesis on the critical-path marks is needed.  In a kernel whose
-    chains all have length 0 the first maximum of `chain_length` is the first LINE, instruction or
-    not: here the comment line 1 is reported as the critical path instead of instruction 2. -/
-theorem cp_zero_quirk :
-    let k := [cmt 1, ins 2 rbx rax 0 1 [1, 0], ins 3 rax rcx 0 1 [1, 0]]
-    (analyze cfg k).cpMarks = [(1, 0)] ∧ (analyze cfg (k.filter (·.isInstr))).cpMarks = [(2, 0)] ∧
-    (analyze cfg k).cpTotal = (analyze cfg (k.filter (·.isInstr))).cpTotal := by
-  decide +kernel
-
 /-! three ways: the marked x86 file of `Props.C11.Ex` (decoys in the prologue, byte-style start marker,
     comment-style end marker, markers again in the epilogue) around a body with noise lines -/
 def wrap (l : Marker.Line) : PLine := { sel := l }
@@ -552,5 +543,14 @@ example : (match run cfg (.lines [52, 44, 44]) alone with | .badLines => true | 
 example : (match run cfg (.markers [109, 105, 112, 115]) alone with | .badIsa => true | _ => false) = true := by
   decide +kernel
 end Ex
+
+/-- **cp_zero_quirk**: the positivity hypothesis on the critical-path marks is needed.  In a kernel whose
+    chains all have length 0 the first maximum of `chain_length` is the first LINE, instruction or
+    not: here the comment line 1 is reported as the critical path instead of instruction 2. -/
+theorem cp_zero_quirk :
+    let k := [Ex.cmt 1, Ex.ins 2 Ex.rbx Ex.rax 0 1 [1, 0], Ex.ins 3 Ex.rax Ex.rcx 0 1 [1, 0]]
+    (analyze Ex.cfg k).cpMarks = [(1, 0)] ∧ (analyze Ex.cfg (k.filter (·.isInstr))).cpMarks = [(2, 0)] ∧
+    (analyze Ex.cfg k).cpTotal = (analyze Ex.cfg (k.filter (·.isInstr))).cpTotal := by
+  decide +kernel
 
 end OsacaVerif.Props.C11Pipeline
